@@ -19,7 +19,8 @@ RULE = ("(a) EXHAUSTIVE sequences over an 8-symbol alphabet (create file A; crea
         "folder F = A's task level; set A k; set A' k; update F; set on a non-existent sibling; create on a Sid without path) - quick: every "
         "sequence of length <= 4 (4680), thorough: length <= 6 (299592), sharded; (b) Hypothesis-generated sequences of up to 40 create / "
         "create-with-data / set / update operations over 6-10 Sids (files, same-stem siblings, folders incl. dotted names, parents, Sids "
-        "without path) with JSON-native values. After every step, for every alphabet Sid: exists() and membership in matching searches "
+        "without path) with JSON-native values; the entity is named by string, uri or Sid object; a quarter of the cases work in a non-default path "
+        "configuration, a quarter with file templates configured for some extensions. After every step, for every alphabet Sid: exists() and the results of matching searches (exactly the model's existing entities) "
         "(parent/*, root/**) agree with an in-memory model, all path-backed ancestors exist, a NEW Getter reads the overlay-in-order of "
         "everything written to that sidecar class plus 'sid'; failing calls raise SpilException and leave the tree byte-identical; sampled "
         "sequences are re-read in a freshly forked post-import process. non-trivial = a write after a write to a different entity, or an "
